@@ -288,11 +288,12 @@ def run(tier, seed):
                 classes[fp] = classes.get(fp, 0) + 1
             else:
                 res.add(Violation(fp, d, {"engine": "grid", "case": list(c)}))
-    alpha = A.render(eom=True) + [("declare", "x", "rydberg_local", "q1")]
+    zero = [("add", ["c", 52, 0.0, 0.0, 1.5], "g"), ("add", ["c", 40, 0.0, 0.0, 0.7], "l", "no-delay")]  # phase-only pulses
+    alpha = A.render(eom=True) + [("declare", "x", "rydberg_local", "q1")] + zero
     plan = [
         (corner("real", prefix=A.GL, qubits=2, name="real"), alpha, 2 if tier == "quick" else 3),
         (corner("mixed", prefix=A.GLD, qubits=2, name="mixed-dmm", over={"raman": dict(bw=None), "dmm": dict(bw=None)}),
-         A.render(dmm="dmm_0"), 2 if tier == "quick" else 3),
+         A.render(dmm="dmm_0") + zero, 2 if tier == "quick" else 3),
     ]
     cov = seqx.run_plan(res, plan, MONITORS)
     cov["evaluations"] = len(cases) + cov["transitions"]
